@@ -4,6 +4,7 @@ package netstate
 
 import (
 	"context"
+	"errors"
 	"fmt"
 	"sort"
 	"strings"
@@ -17,7 +18,8 @@ import (
 
 // One scripted operation on a real Watcher.
 type c19Ev struct {
-	Kind  string              `json:"k"` // sub | watch | notify | drain | end
+	Kind  string              `json:"k"` // sub | watch | watchfail | notify | drain | end
+	Fail  bool                `json:"fail,omitempty"` // end: the watch function returns an error instead of nil
 	Iface uint64              `json:"iface,omitempty"`
 	Mask  uint64              `json:"mask,omitempty"`
 	Set   map[uint64][]uint64 `json:"set,omitempty"` // notify: interface -> changes in order
@@ -26,8 +28,9 @@ type c19Ev struct {
 }
 
 type c19Out struct {
-	Kind   string   `json:"k"` // watch | drain
+	Kind   string   `json:"k"` // watch | drain | end
 	Panic  bool     `json:"panic,omitempty"`
+	Err    bool     `json:"err,omitempty"` // end: the running Watch call returned a non-nil error
 	Vals   []uint64 `json:"vals,omitempty"`
 	Closed bool     `json:"closed,omitempty"`
 }
@@ -35,6 +38,10 @@ type c19Out struct {
 func c19Name(i uint64) string { return fmt.Sprintf("vif%d", i) }
 
 const c19Patience = 5 * time.Second
+
+// c19ErrHook is what the injected watch function returns when the script makes it fail (osWatch:
+// rtnetlink.Dial failed, Receive failed with something else than the shutdown deadline, not Linux).
+var c19ErrHook = errors.New("verif: watch function failed")
 
 // c19Blocked counts runs in which the watcher got stuck; after a few of them the remaining
 // scripts are not run (each would cost the full patience again; the verdict is already decided).
@@ -50,13 +57,19 @@ func c19Run(evs []c19Ev) (outs []c19Out, trouble string) {
 	}
 	cmdC := make(chan cmd)
 	startedC := make(chan struct{}, 4)
+	var failAtStart bool // written before the Watch goroutine starts
+	var hookErr error    // written before cmdC is closed
 	w.watch = func(_ context.Context, notify func(changeSet)) error {
+		fail := failAtStart
 		startedC <- struct{}{}
+		if fail {
+			return c19ErrHook // fails before any event
+		}
 		for c := range cmdC {
 			notify(c.cs)
 			close(c.ack)
 		}
-		return nil
+		return hookErr
 	}
 	type res struct {
 		panicked bool
@@ -83,28 +96,37 @@ func c19Run(evs []c19Ev) (outs []c19Out, trouble string) {
 		}
 	}
 	ended := false
-	endWatch := func() {
-		if running == nil || ended {
-			return
-		}
-		ended = true
-		close(cmdC)
-		if strings.Contains(trouble, "blocked") {
-			c19Blocked++
-			return // the hook goroutine is stuck inside notify: Watch cannot return
-		}
+	// waitWatch waits for the running Watch call to return and records what it returned
+	waitWatch := func(record bool) {
 		select {
 		case r := <-running:
 			if r.panicked {
 				note("Watch panicked while closing the subscriber channels")
-			} else if r.err != nil {
+			} else if r.err != nil && !errors.Is(r.err, c19ErrHook) {
 				note("Watch returned an error the hook did not produce")
+			} else if record {
+				outs = append(outs, c19Out{Kind: "end", Err: r.err != nil})
 			}
 		case <-time.After(c19Patience):
 			note("Watch did not return after the hook returned")
 		}
 	}
-	defer endWatch()
+	endWatch := func(fail, record bool) {
+		if running == nil || ended {
+			return
+		}
+		ended = true
+		if fail {
+			hookErr = c19ErrHook
+		}
+		close(cmdC)
+		if strings.Contains(trouble, "blocked") {
+			c19Blocked++
+			return // the hook goroutine is stuck inside notify: Watch cannot return
+		}
+		waitWatch(record)
+	}
+	defer endWatch(false, false)
 
 	for _, e := range evs {
 		switch e.Kind {
@@ -118,7 +140,8 @@ func c19Run(evs []c19Ev) (outs []c19Out, trouble string) {
 				note("Subscribe blocked")
 				return outs, trouble
 			}
-		case "watch":
+		case "watch", "watchfail":
+			failAtStart = e.Kind == "watchfail"
 			rc := callWatch()
 			select {
 			case <-startedC:
@@ -130,6 +153,11 @@ func c19Run(evs []c19Ev) (outs []c19Out, trouble string) {
 				}
 				running = rc
 				outs = append(outs, c19Out{Kind: "watch", Panic: false})
+				if failAtStart {
+					// the watch function has already returned its error: this is the end of the watch
+					ended = true
+					waitWatch(true)
+				}
 			case r := <-rc:
 				outs = append(outs, c19Out{Kind: "watch", Panic: r.panicked})
 				if !r.panicked {
@@ -176,7 +204,7 @@ func c19Run(evs []c19Ev) (outs []c19Out, trouble string) {
 			}
 			outs = append(outs, o)
 		case "end":
-			endWatch()
+			endWatch(e.Fail, true)
 		}
 	}
 	return outs, trouble
@@ -206,6 +234,8 @@ func c19Emit(out *verifh.Out, id string, evs []c19Ev, tags []string) {
 			ce = append(ce, verifh.App("Subscribe", verifh.N(e.Iface), verifh.N(e.Mask)))
 		case "watch":
 			ce = append(ce, "WatchStart")
+		case "watchfail":
+			ce = append(ce, "WatchStart", "(EndWatch true)")
 		case "notify":
 			var keys []uint64
 			for k := range e.Set {
@@ -216,13 +246,15 @@ func c19Emit(out *verifh.Out, id string, evs []c19Ev, tags []string) {
 		case "drain":
 			ce = append(ce, verifh.App("Drain", verifh.Nat(e.I), verifh.Nat(e.N)))
 		case "end":
-			ce = append(ce, "EndWatch")
+			ce = append(ce, verifh.App("EndWatch", verifh.B(e.Fail)))
 		}
 	}
 	var co []string
 	for _, o := range outs {
 		if o.Kind == "watch" {
 			co = append(co, verifh.App("OWatch", verifh.B(o.Panic)))
+		} else if o.Kind == "end" {
+			co = append(co, verifh.App("OEnd", verifh.B(o.Err)))
 		} else {
 			var vs []string
 			for _, v := range o.Vals {
@@ -264,17 +296,19 @@ func TestVerifC19(t *testing.T) {
 				if !same {
 					ifc = 2
 				}
+				// the watch ends with nil or with an error, alternating over the table
+				fail := (mask+c)%2 == 1 != same
 				evs := []c19Ev{
 					{Kind: "sub", Iface: 1, Mask: mask}, {Kind: "watch"},
 					{Kind: "notify", Set: map[uint64][]uint64{ifc: {c}}},
-					{Kind: "drain", I: 0, N: 3}, {Kind: "end"}, {Kind: "drain", I: 0, N: 3},
+					{Kind: "drain", I: 0, N: 3}, {Kind: "end", Fail: fail}, {Kind: "drain", I: 0, N: 3},
 				}
 				hit := "miss"
 				if same && mask&c != 0 {
 					hit = "hit"
 				}
 				c19Emit(out, fmt.Sprintf("c19-single-%d-%d-%v", mask, c, same), evs,
-					[]string{"stream:single-exhaustive", "single:" + hit})
+					[]string{"stream:single-exhaustive", "single:" + hit, fmt.Sprintf("end-with-error:%v", fail)})
 			}
 		}
 	}
@@ -301,7 +335,7 @@ func TestVerifC19(t *testing.T) {
 	// ---- (2) slow subscribers around the 8-slot boundary: k matching changes, never drained
 	// until the end; delivered in one notify call, one per call, or split over interfaces
 	for k := 0; k <= 30; k++ {
-		for _, shape := range []string{"one-call", "one-per-call", "end-before-drain"} {
+		for _, shape := range []string{"one-call", "one-per-call", "end-before-drain", "fail-before-drain"} {
 			evs := []c19Ev{{Kind: "sub", Iface: 1, Mask: 127}, {Kind: "sub", Iface: 1, Mask: 2}, {Kind: "watch"}}
 			var all []uint64
 			for j := 0; j < k; j++ {
@@ -316,6 +350,9 @@ func TestVerifC19(t *testing.T) {
 			}
 			if shape == "end-before-drain" {
 				evs = append(evs, c19Ev{Kind: "end"})
+			}
+			if shape == "fail-before-drain" { // the watch function fails with changes still buffered
+				evs = append(evs, c19Ev{Kind: "end", Fail: true})
 			}
 			evs = append(evs, c19Ev{Kind: "drain", I: 0, N: 5}, c19Ev{Kind: "drain", I: 0, N: 5}, c19Ev{Kind: "drain", I: 1, N: 12})
 			evs = append(evs, c19Ev{Kind: "end"})
@@ -333,6 +370,20 @@ func TestVerifC19(t *testing.T) {
 		"subscribe-after-end": {{Kind: "sub", Iface: 1, Mask: 127}, {Kind: "watch"}, {Kind: "end"},
 			{Kind: "sub", Iface: 1, Mask: 127}, {Kind: "drain", I: 0, N: 1}, {Kind: "drain", I: 1, N: 1}},
 		"never-watched":    {{Kind: "sub", Iface: 1, Mask: 127}, {Kind: "drain", I: 0, N: 1}},
+		// the watch function fails: before any event (at once: unsupported OS, dial failure; or later), after events
+		"fail-at-once": {{Kind: "sub", Iface: 1, Mask: 127}, {Kind: "sub", Iface: 2, Mask: 2}, {Kind: "sub", Iface: 1, Mask: 127}, {Kind: "watchfail"},
+			{Kind: "drain", I: 0, N: 2}, {Kind: "drain", I: 1, N: 2}, {Kind: "drain", I: 2, N: 2}},
+		"fail-at-once-no-subs": {{Kind: "watchfail"}, {Kind: "sub", Iface: 1, Mask: 127}, {Kind: "drain", I: 0, N: 2}},
+		"fail-before-any-event": {{Kind: "sub", Iface: 1, Mask: 127}, {Kind: "sub", Iface: 2, Mask: 2}, {Kind: "watch"}, {Kind: "drain", I: 0, N: 2},
+			{Kind: "end", Fail: true}, {Kind: "drain", I: 0, N: 2}, {Kind: "drain", I: 1, N: 2}},
+		"fail-after-events": {{Kind: "sub", Iface: 1, Mask: 127}, {Kind: "sub", Iface: 1, Mask: 2}, {Kind: "sub", Iface: 2, Mask: 127}, {Kind: "watch"},
+			{Kind: "notify", Set: map[uint64][]uint64{1: {2, 1, 2}}}, {Kind: "drain", I: 0, N: 1}, {Kind: "end", Fail: true},
+			{Kind: "drain", I: 0, N: 4}, {Kind: "drain", I: 1, N: 4}, {Kind: "drain", I: 2, N: 4}},
+		"fail-then-watch-again": {{Kind: "sub", Iface: 1, Mask: 2}, {Kind: "watch"}, {Kind: "end", Fail: true}, {Kind: "watch"}, {Kind: "end"}, {Kind: "drain", I: 0, N: 2}},
+		"fail-at-once-then-watch-again": {{Kind: "sub", Iface: 1, Mask: 2}, {Kind: "watchfail"}, {Kind: "watchfail"}, {Kind: "sub", Iface: 1, Mask: 2},
+			{Kind: "drain", I: 0, N: 2}, {Kind: "drain", I: 1, N: 2}},
+		"subscribe-after-failure": {{Kind: "sub", Iface: 1, Mask: 127}, {Kind: "watch"}, {Kind: "end", Fail: true},
+			{Kind: "sub", Iface: 1, Mask: 127}, {Kind: "drain", I: 0, N: 1}, {Kind: "drain", I: 1, N: 1}},
 		"end-no-subs":      {{Kind: "watch"}, {Kind: "notify", Set: map[uint64][]uint64{1: {1, 2}}}, {Kind: "end"}},
 		"empty-notify":     {{Kind: "sub", Iface: 1, Mask: 127}, {Kind: "watch"}, {Kind: "notify", Set: map[uint64][]uint64{}}, {Kind: "notify", Set: map[uint64][]uint64{1: {}}}, {Kind: "drain", I: 0, N: 1}, {Kind: "end"}, {Kind: "drain", I: 0, N: 1}},
 		"zero-mask":        {{Kind: "sub", Iface: 1, Mask: 0}, {Kind: "watch"}, {Kind: "notify", Set: map[uint64][]uint64{1: {1, 2, 127}}}, {Kind: "drain", I: 0, N: 4}, {Kind: "end"}, {Kind: "drain", I: 0, N: 4}},
@@ -504,12 +555,14 @@ func c19Random(r *verifh.Rand) ([]c19Ev, []string) {
 	}
 	switch x := r.Intn(100); {
 	case x < 70:
-		evs = append(evs, c19Ev{Kind: "end"})
+		// the watch function returns nil (context cancelled) or fails (40%)
+		fail := x%5 < 2
+		evs = append(evs, c19Ev{Kind: "end", Fail: fail})
 		if r.Chance(30) {
 			sub()
 			tags = append(tags, "subscribe-after-end")
 		}
-		tags = append(tags, "ended")
+		tags = append(tags, "ended", fmt.Sprintf("end-with-error:%v", fail))
 	default:
 		tags = append(tags, "not-ended")
 	}
@@ -552,6 +605,9 @@ func c19RaceRound(seed uint64) (viol string) {
 		for i := 0; ; i++ {
 			select {
 			case <-stop:
+				if seed%2 == 1 {
+					return c19ErrHook // the channels must be closed all the same
+				}
 				return nil
 			default:
 			}
